@@ -330,7 +330,16 @@ def rule_P7(ctx: Ctx) -> None:
         r.run(ctx)
 
 
+def rule_P8(ctx: Ctx) -> None:
+    """endpoints are drawn (without replacement, by row index) from the connected component: the component query must list every
+    reachable cell exactly once (C13.V2 re-judged) - a duplicated row lets the two draws hit the same cell"""
+    from sa.rules import c13
+
+    c13.rule_V2(ctx)
+
+
 RULES = [
+    Rule("C03.P8", rule_P8, floor=3, doc="the component endpoints are drawn from lists every reachable cell once (C13.V2 re-judged)"),
     Rule("C03.P1", rule_P1, floor=2, doc="pipeline dataflow"),
     Rule("C03.P2", rule_P2, floor=2, doc="every path ends in the solver on component endpoints"),
     Rule("C03.P3", rule_P3, floor=9, doc="endpoint options honoured"),
